@@ -4,7 +4,10 @@ Executed on SQLite (deciding part).  Table ``h`` holds every string over the alp
 ``a B % _ / \\ ' " [ ^`` up to length 3 (quick) / 4 (thorough) plus a NULL.  For every
 needle up to length 2 (quick) / 3 (thorough) over the same alphabet (plus seeded random
 longer ones), every operator (contains / startswith / endswith and the i-variants) and
-three escape configurations
+their six ``not_`` forms -- each written in three spellings that rotate over the
+needles: the method (``col.contains(x)`` / ``~col.contains(x)``), the operator function
+(``operators.not_iendswith_op(col, x, autoescape=True)``) and ``col.operate(fn, x, ...)`` --
+and three escape configurations
 
   auto      ``autoescape=True``                        (default escape ``/``)
   auto+esc  ``autoescape=True, escape=<one of / \\ ^ #>``
@@ -46,12 +49,16 @@ META = {
     "soft_s": {"quick": 50, "thorough": 800},
     "exhaustive": {"quick": True, "thorough": True},
     "require": ["queries_judged", "pairs_judged", "rows_matched", "needles_with_wildcards", "needles_with_escape_char",
+                "spelling_method", "spelling_function", "spelling_operate",
                 "fake_patterns_judged", "case_sensitive_pragma_verified"],
     "assumptions": ["SQLite LIKE implements standard % / _ / ESCAPE semantics (ASCII)"],
 }
 
 ALPHABET = ["a", "B", "%", "_", "/", "\\", "'", '"', "[", "^"]
 OPS = ("contains", "startswith", "endswith", "icontains", "istartswith", "iendswith")
+# the twelve operator functions of sqlalchemy.sql.operators: the six above and their not_ forms
+OPS12 = OPS + tuple("not_" + o for o in OPS)
+SPELLINGS = ("method", "function", "operate")
 ESCAPES = ("/", "\\", "^", "#")
 
 
@@ -61,7 +68,15 @@ def strings(maxlen):
             yield "".join(tup)
 
 
+def split_op(op):
+    """'not_iendswith' -> (True, 'iendswith')"""
+    return (True, op[4:]) if op.startswith("not_") else (False, op)
+
+
 def py_pred(op, hay, needle):
+    neg, op = split_op(op)
+    if neg:
+        return not py_pred(op, hay, needle)
     if op.startswith("i"):
         op, hay, needle = op[1:], hay.lower(), needle.lower()
     if op == "contains":
@@ -94,13 +109,28 @@ def coarse(needle, esc):
     return "other"
 
 
-def build(col, op, config, esc, needle):
-    fn = getattr(col, op)
+def build(col, op, config, esc, needle, spelling="method"):
+    """three spellings of the same operator:
+      method    col.contains(x, ...)            (not_ forms: ~col.contains(x, ...))
+      function  operators.contains_op(col, x, ...)   / operators.not_contains_op(col, x, ...)
+      operate   col.operate(operators.contains_op, x, ...)
+    """
+    from sqlalchemy.sql import operators
+
     if config == "auto":
-        return fn(needle, autoescape=True)
-    if config == "auto+esc":
-        return fn(needle, autoescape=True, escape=esc)
-    return fn(manual_escape(needle, esc), escape=esc)
+        arg, kw = needle, {"autoescape": True}
+    elif config == "auto+esc":
+        arg, kw = needle, {"autoescape": True, "escape": esc}
+    else:
+        arg, kw = manual_escape(needle, esc), {"escape": esc}
+    neg, base = split_op(op)
+    if spelling == "method":
+        e = getattr(col, base)(arg, **kw)
+        return ~e if neg else e
+    fn = getattr(operators, op + "_op")
+    if spelling == "function":
+        return fn(col, arg, **kw)
+    return col.operate(fn, arg, **kw)
 
 
 def run(ctx):
@@ -142,6 +172,10 @@ def _set_pragma(ctx, conn, on):
     ctx.count("case_sensitive_pragma_verified")
 
 
+def sp(spelling):
+    return "" if spelling == "method" else ":" + spelling
+
+
 def _run_sqlite(ctx, sa, conn, h, rows, nonnull_ids):
     rng = ctx.rng
     needles = list(strings(ctx.pick({"quick": 2, "thorough": 3})))
@@ -151,11 +185,13 @@ def _run_sqlite(ctx, sa, conn, h, rows, nonnull_ids):
     idx = 0
     pragma_state = None
     for cs in (True, False):
-        for needle in needles:
-            for op in OPS:
-                insensitive = op.startswith("i")
-                if not cs and not insensitive:
+        for ni, needle in enumerate(needles):
+            for oi, op in enumerate(OPS12):
+                insensitive = split_op(op)[1].startswith("i")
+                if not cs and (not insensitive or ni % 2):
                     continue
+                # every (operator, spelling) pair is reached: the spelling rotates with the needle
+                spelling = SPELLINGS[(ni + oi) % 3]
                 for config in ("auto", "auto+esc", "manual"):
                     idx += 1
                     if not ctx.mine(idx):
@@ -168,8 +204,9 @@ def _run_sqlite(ctx, sa, conn, h, rows, nonnull_ids):
                     esc = "/" if config == "auto" else ESCAPES[(idx // 7) % len(ESCAPES)]
                     literal = (idx // 3) % 2 == 1
                     negate = idx % 11 == 0
-                    desc = {"op": op, "config": config, "escape": esc, "needle": needle, "literal": literal, "cs": cs, "negated": negate}
-                    expr = build(h.c.s, op, config, esc, needle)
+                    desc = {"op": op, "spelling": spelling, "config": config, "escape": esc, "needle": needle, "literal": literal, "cs": cs, "negated": negate}
+                    expr = build(h.c.s, op, config, esc, needle, spelling)
+                    ctx.count("spelling_" + spelling)
                     if negate:
                         expr = ~expr
                     st = sa.select(h.c.id).where(expr)
@@ -181,7 +218,7 @@ def _run_sqlite(ctx, sa, conn, h, rows, nonnull_ids):
                             sql = str(st.compile(conn.engine))
                             got = {r[0] for r in conn.execute(st)}
                     except sa.exc.SQLAlchemyError as e:
-                        ctx.violation(f"sqlite-like-error:{op}:{coarse(needle, esc)}",
+                        ctx.violation(f"sqlite-like-error:{op}{sp(spelling)}:{coarse(needle, esc)}",
                                       f"{type(e).__name__}: {str(e)[:200]}", desc)
                         continue
                     want = {r["id"] for r in rows if r["s"] is not None and py_pred(op, r["s"], needle)}
@@ -196,14 +233,14 @@ def _run_sqlite(ctx, sa, conn, h, rows, nonnull_ids):
                         ctx.count("needles_with_wildcards")
                     if esc in needle:
                         ctx.count("needles_with_escape_char")
-                    ctx.seen("op_config", f"{op}/{config}/{esc}/{'lit' if literal else 'bound'}")
+                    ctx.seen("op_config", f"{op}/{spelling}/{config}/{esc}/{'lit' if literal else 'bound'}")
                     if got != want:
                         extra_ids = sorted(got - want)[:3]
                         missing = sorted(want - got)[:3]
                         byid = {r["id"]: r["s"] for r in rows}
                         ctx.violation(
-                            f"sqlite-like:{op}:{coarse(needle, esc)}",
-                            f"{op}({needle!r}, {config}, escape={esc!r}) {'literal' if literal else 'bound'}: "
+                            f"sqlite-like:{op}{sp(spelling)}:{coarse(needle, esc)}",
+                            f"{op}({needle!r}, {config}, escape={esc!r}) spelled as {spelling}, {'literal' if literal else 'bound'}: "
                             f"wrongly matched {[byid[i] for i in extra_ids]} missed {[byid[i] for i in missing]} :: {sql}",
                             dict(desc, sql=sql, wrongly_matched=[byid[i] for i in extra_ids], missed=[byid[i] for i in missing]),
                         )
@@ -220,10 +257,11 @@ FAKE_URLS = {
 
 
 def decode_like(T, sql, params, dialect, paramstyle):
-    """-> (pattern, escape, casefold) reconstructed from the WHERE clause of the
-    recorded statement."""
+    """-> (pattern, escape, casefold, negated) reconstructed from the WHERE clause of
+    the recorded statement."""
     toks = T.where_tokens(sql, dialect, paramstyle)
     li = next(i for i, t in enumerate(toks) if t.kind == "kw" and t.text in ("LIKE", "ILIKE"))
+    negated = li > 0 and toks[li - 1].kind == "kw" and toks[li - 1].text == "NOT"
     casefold = toks[li].text == "ILIKE" or any(t.kind == "ident" and t.text.lower() == "lower" for t in toks[:li])
     ei = next((i for i, t in enumerate(toks) if t.kind == "kw" and t.text == "ESCAPE"), None)
     pat_toks = toks[li + 1: ei if ei is not None else len(toks)]
@@ -245,7 +283,7 @@ def decode_like(T, sql, params, dialect, paramstyle):
         if et.kind != "string" or len(et.value) != 1:
             raise ValueError(f"ESCAPE operand is not a one-character literal: {et!r}")
         esc = et.value
-    return "".join(parts), esc, casefold
+    return "".join(parts), esc, casefold, negated
 
 
 def _run_fake(ctx, sa, haystacks):
@@ -265,22 +303,23 @@ def _run_fake(ctx, sa, haystacks):
         hays = [s for s in haystacks if not (name == "oracle" and s == "")]
         k = 0
         with eng.connect() as conn:
-            for needle in needles:
-                for op in OPS:
+            for ni, needle in enumerate(needles):
+                for oi, op in enumerate(OPS12):
+                    spelling = SPELLINGS[(ni + oi) % 3]
                     for config in ("auto", "auto+esc", "manual"):
                         k += 1
-                        if ctx.quick and k % 3 != ctx.seed % 3:
+                        if ctx.quick and (ni + (k % 3)) % 3 != ctx.seed % 3:
                             continue
                         if not ctx.budget_ok():
                             return
                         esc = "/" if config == "auto" else ESCAPES[(k // 5) % len(ESCAPES)]
-                        desc = {"dialect": name, "op": op, "config": config, "escape": esc, "needle": needle}
-                        st = sa.select(h.c.id).where(build(h.c.s, op, config, esc, needle))
+                        desc = {"dialect": name, "op": op, "spelling": spelling, "config": config, "escape": esc, "needle": needle}
+                        st = sa.select(h.c.id).where(build(h.c.s, op, config, esc, needle, spelling))
                         mark = fake.mark()
                         conn.execute(st)
                         ev = fake.since(mark, ("execute",))[-1]
                         try:
-                            pattern, e2, casefold = decode_like(T, ev.sql, ev.params, name, paramstyle)
+                            pattern, e2, casefold, negated = decode_like(T, ev.sql, ev.params, name, paramstyle)
                             items = T.like_compile(pattern, e2, name)
                         except (ValueError, T.LexError, StopIteration) as e:
                             ctx.violation(f"{name}-like-undecodable:{coarse(needle, esc)}",
@@ -288,14 +327,14 @@ def _run_fake(ctx, sa, haystacks):
                             continue
                         ctx.count("fake_patterns_judged")
                         ctx.case(desc, nontrivial=feature(needle, esc) != "plain")
-                        insensitive = op.startswith("i")
+                        insensitive = split_op(op)[1].startswith("i")
                         if insensitive != casefold:
-                            ctx.violation(f"{name}-like-case-handling:{op}", f"casefold={casefold} for {op} :: {ev.sql}", dict(desc, sql=ev.sql))
+                            ctx.violation(f"{name}-like-case-handling:{op}{sp(spelling)}", f"casefold={casefold} for {op} :: {ev.sql}", dict(desc, sql=ev.sql))
                             continue
-                        bad = [s for s in hays if T.like_match(items, s, casefold) != py_pred(op, s, needle)]
+                        bad = [s for s in hays if (T.like_match(items, s, casefold) != negated) != py_pred(op, s, needle)]
                         if bad:
                             ctx.violation(
-                                f"{name}-like:{op}:{coarse(needle, esc)}",
+                                f"{name}-like:{op}{sp(spelling)}:{coarse(needle, esc)}",
                                 f"{op}({needle!r},{config},escape={esc!r}) on {name}: pattern {pattern!r} ESCAPE {e2!r} disagrees with Python on {bad[:3]} :: {ev.sql} {ev.params!r}",
                                 dict(desc, sql=ev.sql, params=ev.params, pattern=pattern, disagree=bad[:5]),
                             )
